@@ -11,9 +11,11 @@ echo "== with the change: demo (must fail)"
 [ -d "$WT/_bp" ] && cmake --build "$WT/_bp" -j16 >/dev/null
 sh "$WT/_seeded/run.sh" > "$WT/_seeded/confirm_with.log" 2>&1; RC1=$?; tail -3 "$WT/_seeded/confirm_with.log"; echo "demo rc=$RC1"
 echo "== without the change: demo (must pass)"
-git stash -q -- src
+# (not `git stash`: the stash list is shared by all worktrees of the repository)
+git diff -- src > "$WT/_seeded/.confirm.patch"
+git apply -R "$WT/_seeded/.confirm.patch"
 cmake --build "$WT/_b" -j16 >/dev/null
 [ -d "$WT/_bp" ] && cmake --build "$WT/_bp" -j16 >/dev/null
 sh "$WT/_seeded/run.sh" > "$WT/_seeded/confirm_without.log" 2>&1; RC2=$?; tail -3 "$WT/_seeded/confirm_without.log"; echo "demo rc=$RC2"
-git stash pop -q
+git apply "$WT/_seeded/.confirm.patch" && rm -f "$WT/_seeded/.confirm.patch"
 [ "$RC1" -ne 0 ] && [ "$RC2" -eq 0 ] && echo "CONFIRMED" || echo "NOT CONFIRMED"
